@@ -370,3 +370,94 @@ def find_calls(node, method=None, func=None):
             yield n
         if func is not None and n.get("k") == "call" and n["func"].get("k") == "path" and n["func"]["segs"][-1] == func:
             yield n
+
+
+# ---------------------------------------------------------------------------
+# overflow-safe arithmetic written with checked_* / wrapping_* reads as the operator it implements
+
+_ARITH_METHODS = {"add": "+", "sub": "-", "mul": "*", "div": "/", "rem": "%", "shl": "<<", "shr": ">>"}
+
+
+def _subst(node, name, repl):
+    if isinstance(node, dict):
+        if node.get("k") == "path" and node.get("segs") == [name]:
+            return repl
+        return {k: (_subst(v, name, repl) if k not in ("loc", "pat", "params") else v) for k, v in node.items()}
+    if isinstance(node, list):
+        return [_subst(x, name, repl) for x in node]
+    return node
+
+
+def plain_arith(node, closures=None):
+    """A copy of `node` in which overflow-safe spellings are replaced by the plain operator they
+    implement and error plumbing is removed:
+        a.checked_add(b) / a.wrapping_add(b)          -> (a + b)      (sub, mul, div, rem, shl, shr alike)
+        a.checked_neg() / a.wrapping_neg()            -> -a
+        u32::try_from(r).ok().and_then(|s| l.checked_shl(s))   -> (l << r)
+        e?   e.ok_or_else(..)   e.ok_or(..)   e.map_err(..)    -> e
+        e.map(Ctor)                                   -> Ctor(e)
+        f(e) where f is a local closure `|v| v.<plumbing>`     -> the plumbing applied to e
+        *x                                            -> x
+    so that a rule about which operator an arm computes reads both spellings alike."""
+    closures = closures or {}
+
+    def rec(n):
+        if isinstance(n, list):
+            return [rec(x) for x in n]
+        if not isinstance(n, dict):
+            return n
+        k = n.get("k")
+        if k == "try":
+            return rec(n["e"])
+        if k == "unary" and n.get("op") == "*":
+            return rec(n["e"])
+        if k == "ref":
+            return rec(n["e"])
+        if k == "mcall":
+            m = n["method"]
+            mm = None
+            for pre in ("checked_", "wrapping_"):
+                if m.startswith(pre):
+                    mm = m[len(pre):]
+            if mm in _ARITH_METHODS and len(n.get("args", [])) == 1:
+                return {"k": "binary", "op": _ARITH_METHODS[mm], "l": rec(n["recv"]), "r": rec(n["args"][0]), "loc": n.get("loc")}
+            if mm == "neg" and not n.get("args"):
+                return {"k": "unary", "op": "-", "e": rec(n["recv"]), "loc": n.get("loc")}
+            if m in ("ok_or_else", "ok_or", "map_err"):
+                return rec(n["recv"])
+            if m == "map" and len(n.get("args", [])) == 1 and n["args"][0].get("k") == "path":
+                return {"k": "call", "func": n["args"][0], "args": [rec(n["recv"])], "loc": n.get("loc")}
+            if m == "and_then" and len(n.get("args", [])) == 1 and n["args"][0].get("k") == "closure":
+                c = n["args"][0]
+                ps = [p.get("name") for p in c.get("params", []) if isinstance(p, dict)]
+                r = n["recv"]
+                # <conversion of X>.ok()
+                if r.get("k") == "mcall" and r["method"] == "ok" and len(ps) == 1 and ps[0]:
+                    conv = r["recv"]
+                    x = None
+                    if conv.get("k") == "call" and conv["func"].get("k") == "path" and conv["func"]["segs"][-1] in ("try_from", "from") and conv.get("args"):
+                        x = conv["args"][0]
+                    elif conv.get("k") == "mcall" and conv["method"] in ("try_into", "into"):
+                        x = conv["recv"]
+                    if x is not None:
+                        return rec(_subst(c["body"], ps[0], x))
+        if k == "call" and n["func"].get("k") == "path" and len(n["func"]["segs"]) == 1 and n["func"]["segs"][0] in closures and len(n.get("args", [])) == 1:
+            c = closures[n["func"]["segs"][0]]
+            ps = [p.get("name") for p in c.get("params", []) if isinstance(p, dict)]
+            if len(ps) == 1 and ps[0]:
+                b = c["body"]
+                while isinstance(b, dict) and b.get("k") == "block" and len(b.get("stmts", [])) == 1 and not b["stmts"][0].get("semi"):
+                    b = b["stmts"][0]
+                return rec(_subst(b, ps[0], n["args"][0]))
+        return {kk: (rec(v) if kk not in ("loc", "pat", "params") else v) for kk, v in n.items()}
+
+    return rec(node)
+
+
+def local_closures(fn_or_node):
+    """name -> closure node for `let name = |..| ..;` bindings (plumbing helpers such as `fits`)."""
+    out = {}
+    for n in walk(fn_or_node):
+        if n.get("k") == "let" and isinstance(n.get("init"), dict) and n["init"].get("k") == "closure" and n.get("pat", {}).get("k") == "ident":
+            out[n["pat"]["name"]] = n["init"]
+    return out
